@@ -143,16 +143,23 @@ def patch_rules(facts, rep, rule="C01-PATCH"):
         if s["k"] != "assign":
             continue
         fp = [p.get("n") for p in s["place"]["p"] if p["k"] == "field"]
+        fields = []
         if len(fp) >= 2 and fp[-2] == "stats" and fp[-1] in resets:
-            e = norm(exs.rvalue(s["rv"], (bi, si)))
+            fields = [(fp[-1], norm(exs.rvalue(s["rv"], (bi, si))))]
+        elif fp and fp[-1] == "stats":
+            # the whole record replaced at once: `self.stats = ZipWriterStats { .. }`
+            whole = norm(exs.rvalue(s["rv"], (bi, si)))
+            if whole[0] == "agg":
+                fields = [(k_, v_) for k_, v_ in whole[3] if k_ in resets]
+        for fname, e in fields:
             after_hdr = se.dominates(hdr[0][0], bi)
-            if fp[-1] == "start":
+            if fname == "start":
                 good = after_hdr and any(x[0] == "call" and x[1].endswith("stream_position") for x in walk(e))
-            elif fp[-1] == "bytes_written":
+            elif fname == "bytes_written":
                 good = e == ("const", "u64", 0)
             else:
                 good = e[0] == "call" and e[1].endswith("Hasher::new")
-            resets[fp[-1]] = (good, s, e)
+            resets[fname] = (good, s, e)
     for k, v in resets.items():
         good = bool(v and v[0])
         ok &= good
